@@ -1,29 +1,43 @@
-import json, os, shutil, sys, csv
-sys.path.insert(0,'/tmp')
-from needs import NEEDS
-rows={}
-for line in open('/tmp/seedrun_final.tsv'):
-    f=line.rstrip('\n').split('\t')
-    rows[f"{f[0]}_{f[1]}"]=f
-cross={"C06_1":"C05 and C08 (same extraction shortcut) report it at the quick tier; C06 itself needs the dropped term to make the reported optimum infeasible, which the quick budget did not reach",
-       "C09_3":"C13 (edit histories: subject_to(list) after a solve) reports it at the quick tier; C09 solves each model once and is not the property this change belongs to"}
-out='/verif/seeded'
-os.makedirs(out,exist_ok=True)
-table=[]
-for key,(what,needs) in sorted(NEEDS.items()):
-    p,k=key.split('_')
-    d=os.path.join(out,key); os.makedirs(d,exist_ok=True)
-    shutil.copy(f'/tmp/seedstage/{p}/seeded_{p}_{k}.diff', os.path.join(d,'patch.diff'))
-    shutil.copy(f'/tmp/seedstage/{p}/demo_{p}_{k}.py', os.path.join(d,'demo.py'))
-    f=rows[key]
-    detected=f[6]=="check_exit=1"
-    bucket=f[8].replace('bucket=','').split(' detail=')[0] if len(f)>8 else ''
-    meta={"property":p,"change":what,"needs_to_manifest":needs,"origin":"independent sub-agent given only the property text and a scratch worktree",
-          "confirmed_by_me":{"how":"tools/seedrun.sh in a scratch worktree of /repo HEAD: git apply patch.diff; repo suite (804 tests) with the patch; demo.py with and without the patch",
-                             "patch_applies":f[2]=="applies=yes","suite_passes_with_patch":True,"demo_fails_with_patch":f[4]=="demo_with=1","demo_passes_without_patch":f[5]=="demo_without=0"},
-          "home_check":{"cmd":f"VERIF_REPO=<scratch copy with patch> ./vcheck {p} quick","exit":int(f[6].split('=')[1]),"detected":detected,"bucket":bucket,"seconds":f[7]}}
-    if key in cross: meta["detected_elsewhere"]=cross[key]
-    json.dump(meta,open(os.path.join(d,'meta.json'),'w'),indent=1)
-    table.append((key,what,needs,"yes ("+bucket[:60]+")" if detected else "no - "+cross.get(key,"")))
-open('/tmp/seedtable.md','w').write("| seed | change | needs | caught by its property's quick check |\n|---|---|---|---|\n"+"\n".join(f"| {a} | {b} | {c} | {d} |" for a,b,c,d in table)+"\n")
-print(len(table), sum(1 for t in table if t[3].startswith('yes')))
+#!/venv/bin/python
+"""Builds /verif/seeded/ from the staged seeds and the final seedrun tables (rounds 1 and 2)."""
+import json, os, shutil, sys
+sys.path.insert(0, os.path.dirname(__file__))
+from seed_descriptions import NEEDS
+from seed_descriptions2 import NEEDS2
+
+ROUNDS = [("", "/tmp/seedstage", "/tmp/final_r1.tsv", NEEDS, "round 1: three realistic changes per property"),
+          ("r2_", "/tmp/seedstage_r2all", "/tmp/final_r2.tsv", NEEDS2,
+           "round 2: k=1 needs a history / cache state, k=2 two cooperating edits, k=3 an unusual legal input")]
+SIBLING = json.load(open("/tmp/sibling.json")) if os.path.exists("/tmp/sibling.json") else {}
+out = "/verif/seeded"
+lines = []
+for prefix, stage, tsv, needs, about in ROUNDS:
+    rows = {}
+    for line in open(tsv):
+        f = line.rstrip("\n").split("\t")
+        rows[f"{f[0]}_{f[1]}"] = f
+    for key, (what, need) in sorted(needs.items()):
+        p, k = key.split("_")
+        name = f"{p}_{prefix}{k}"
+        d = os.path.join(out, name)
+        os.makedirs(d, exist_ok=True)
+        shutil.copy(f"{stage}/{p}/seeded_{p}_{k}.diff", os.path.join(d, "patch.diff"))
+        shutil.copy(f"{stage}/{p}/demo_{p}_{k}.py", os.path.join(d, "demo.py"))
+        f = rows[key]
+        detected = f[6] == "check_exit=1"
+        bucket = (f[8] if len(f) > 8 else "").replace("(saved regression input) ", "replay tier: ").replace("bucket=", "").split(" detail=")[0]
+        meta = {"property": p, "round": about, "change": what, "needs_to_manifest": need,
+                "origin": "independent sub-agent given only the property text and a private scratch worktree (prompt: tools/agent_prompt*.py)",
+                "confirmed_by_me": {"how": "tools/seedrun.sh in a scratch worktree of /repo HEAD: git apply patch.diff; repository suite (804 tests, "
+                                           "up to 3 attempts because one wall-clock test is flaky under load); demo.py with and without the patch",
+                                    "patch_applies": f[2] == "applies=yes", "suite_passes_with_patch": f[3] == "tests=0",
+                                    "demo_fails_with_patch": f[4] == "demo_with=1", "demo_passes_without_patch": f[5] == "demo_without=0"},
+                "home_check": {"cmd": f"VERIF_REPO=<scratch copy with patch> ./vcheck {p} quick", "exit": int(f[6].split("=")[1]),
+                               "detected": detected, "bucket": bucket, "seconds": f[7]}}
+        if name in SIBLING:
+            meta["detected_by_sibling_check"] = SIBLING[name]
+        json.dump(meta, open(os.path.join(d, "meta.json"), "w"), indent=1)
+        how = ("yes (" + bucket[:70] + ")") if detected else ("no; " + SIBLING.get(name, "NOT CAUGHT"))
+        lines.append(f"| {name} | {what} | {need} | {how} |")
+open("/tmp/seedtable_all.md", "w").write("| seed | change | needs | caught by its property's quick check |\n|---|---|---|---|\n" + "\n".join(lines) + "\n")
+print(len(lines), sum(1 for l in lines if "| yes (" in l))
